@@ -22,7 +22,7 @@ func stubStdPBKDF2(h func() hash.Hash, password string, salt []byte, iter, keyLe
 	if keyLength <= 0 {
 		return nil, errors.New("pbkdf2: keyLength must be larger than 0")
 	}
-	if keyLength > 1<<36 {
+	if keyLength > (1<<32-1)*32 { // documented limit (2^32 - 1) * h.Size(); scrypt only uses SHA-256
 		return nil, errors.New("pbkdf2: keyLength too long")
 	}
 	verifrt.Assume(keyLength <= 1200) // outside the claim: larger outputs
